@@ -1193,7 +1193,7 @@ func (p *BinaryProtocol) ReadBaseTypeWithDesc(desc *proto.TypeDescriptor, hasMes
 		}
 		// read repeat until sumLength equals MessageLength
 		start := p.Read
-		if messageLength < 0 || start+messageLength > len(p.Buf) {
+		if messageLength < 0 || messageLength > len(p.Buf)-start {
 			return nil, errDecodeField
 		}
 		// bound the buffer by the message end, so that the elements of a trailing
